@@ -1,6 +1,7 @@
 import HC.Proofs.LiveRefine
 import HC.Proofs.FullRoots
 import HC.Proofs.BitfieldPages
+import HC.Proofs.Touch
 /-!
 Reopen: replaying the logged entries over the flushed stores re-establishes the representation
 invariant `Rep` for the same abstract log.
@@ -13,7 +14,7 @@ it for the current log.  `reopen_refines`: hence `Hypercore::new` yields a core 
 -/
 namespace HC.Reopen
 open HC HC.Codec HC.Flat HC.Tree HC.RefTree HC.RefProof HC.Offsets HC.TreeStore HC.LogSpec HC.Core HC.Oplog HC.LiveRefine
-  HC.FullRoots HC.BitfieldPages HC.FormatLimits HC.OplogBytes
+  HC.FullRoots HC.BitfieldPages HC.FormatLimits HC.OplogBytes HC.Touch
 
 /-! ### reference roots as a list -/
 
@@ -151,19 +152,44 @@ theorem truncate_ok (C : Crypto) (bs : Array Bytes) (t : Tree) (f : File) (fork 
 
 /-! ### replaying one entry -/
 
-/-- what the replay maintains: `Rep` without the parts that live outside (secret, data store) -/
-structure RInv (C : Crypto) (t : Tree) (b : Bitfield) (h : Header) (f fb : File) (a : Abs) : Prop where
+/-- What the replay maintains: `Rep` without the parts that live outside (secret, data store), stated so
+    that it tolerates a bitfield store that is *ahead* of the header: `rest` are the entries still to be
+    replayed, `N` the final length.  A bit equals the abstract one unless a remaining entry touches it;
+    everything below the hint is held unless a remaining entry drops it; the hint is never stuck below a
+    held bit. -/
+structure RInv (C : Crypto) (t : Tree) (b : Bitfield) (h : Header) (f fb : File) (a : Abs) (rest : List Entry) (N : Nat) : Prop where
   tree : RootsOK C a.blocks t.changeset
   nodes : NodesOK C a.blocks t f
   mapwf : MapWF t.unflushed
-  bits : ∀ i, b.get i = a.held i
+  bitsB : ∀ i, (∀ e ∈ rest, ¬ Touches e i) → b.get i = a.held i
   heldLt : ∀ i, a.held i = true → i < a.blocks.size
-  contig : FirstMissing b h.contiguous
+  contJ : ∀ i, i < h.contiguous → b.get i = true ∨ ∃ e ∈ rest, Clears e i
+  contK : a.blocks.size ≤ h.contiguous ∨ b.get h.contiguous = false
+  bitsN : ∀ i, b.get i = true → i < N
+  contN : h.contiguous ≤ N
   hdrLen : h.tree.length = a.blocks.size
   hdrSig : h.tree.signature = [] ∨ h.tree.signature.length = 64
   shape : HdrShape h
   forkU : U64 t.fork
   dirty : ∀ i, b.get i ≠ (Bitfield.ofFile fb).get i → i / Spec.pageBits ∈ b.dirty
+
+/-- with nothing left to replay the bitfield is exact and the hint is the first missing index -/
+theorem rinv_final (C : Crypto) (t : Tree) (b : Bitfield) (h : Header) (f fb : File) (a : Abs) (N : Nat)
+    (hinv : RInv C t b h f fb a [] N) : (∀ i, b.get i = a.held i) ∧ FirstMissing b h.contiguous := by
+  have hb : ∀ i, b.get i = a.held i := fun i => hinv.bitsB i (fun e he => by cases he)
+  refine ⟨hb, fun i hi => ?_, ?_⟩
+  · rcases hinv.contJ i hi with h1 | ⟨e, he, _⟩
+    · exact h1
+    · cases he
+  · rcases hinv.contK with h1 | h1
+    · cases hc : b.get h.contiguous with
+      | false => rfl
+      | true =>
+        exfalso
+        rw [hb] at hc
+        have := hinv.heldLt _ hc
+        omega
+    · exact h1
 
 theorem contig_le_of (b : Bitfield) (c n : Nat) (h : FirstMissing b c) (hlt : ∀ i, b.get i = true → i < n) : c ≤ n := by
   by_cases hle : c ≤ n
@@ -184,59 +210,96 @@ theorem foldl_addNode (nodes : List Node) (t : Tree) :
   | cons n ns ih => simp only [List.foldl_cons, ih, Tree.addNode, insertAll]
 
 theorem replayEntry_ok (C : Crypto) (hC : HashWF C) (d : Disk) (ol : Oplog.State) (h : Header) (t : Tree) (b : Bitfield)
-    (a a' : Abs) (e : Entry) (hTw : TreeWF C) (hinv : RInv C t b h d.tree d.bitfield a) (hstep : EntryStep C a e a')
-    (hsmall : Small a') (hok : EntryOK e) :
-    ∃ h' t' b', Core.replayEntry C d (ol, h, t, b) e = .ok (ol, h', t', b') ∧ RInv C t' b' h' d.tree d.bitfield a'
+    (a a' : Abs) (e : Entry) (rest : List Entry) (N : Nat) (hTw : TreeWF C)
+    (hinv : RInv C t b h d.tree d.bitfield a (e :: rest) N) (hstep : EntryStep C a e a')
+    (hsmall : Small a') (hok : EntryOK e) (hN : a'.blocks.size ≤ N) (hN64 : N < 2 ^ 64) :
+    ∃ h' t' b', Core.replayEntry C d (ol, h, t, b) e = .ok (ol, h', t', b') ∧ RInv C t' b' h' d.tree d.bitfield a' rest N
       ∧ h'.secret = h.secret ∧ h'.publicKey = h.publicKey := by
   cases hstep with
   | clear s e hse =>
     have hge : ¬ s ≥ e := by omega
     have habs : (a.step (.clear s e)).1 = { a with held := fun i => a.held i && !(decide (s ≤ i) && decide (i < e)) } := by
       simp only [Abs.step, hge, ite_false]
-    rw [habs]
-    refine ⟨updateContiguous h (b.setRange s (e - s) false) ⟨true, s, e - s⟩, t, b.setRange s (e - s) false, ?_, ?_, ?_, ?_⟩
-    · simp [Core.replayEntry, Tree.addNode]
-    · have hbits' : ∀ i, (b.setRange s (e - s) false).get i = (a.held i && !(decide (s ≤ i) && decide (i < e))) := by
-        intro i
-        rw [Bitfield.get_setRange, hinv.bits]
-        by_cases hin : s ≤ i ∧ i < s + (e - s)
-        · have : s ≤ i ∧ i < e := by omega
-          simp [hin, this.1, this.2]
-        · by_cases h1 : s ≤ i
-          · have : ¬ i < e := by omega
-            simp [hin, h1, this]
-            intro _; omega
-          · simp [hin, h1]
-      have hfm := updateContiguous_spec h b ⟨true, s, e - s⟩ hinv.contig (by simp; omega)
-      simp only [Bool.not_true] at hfm
-      have hcU : U64 (updateContiguous h (b.setRange s (e - s) false) ⟨true, s, e - s⟩).contiguous := by
-        have := contig_le_of _ _ a.blocks.size hfm (by
+    rw [habs] at hN ⊢
+    generalize hb' : b.setRange s (e - s) false = b'
+    have hget : ∀ i, b'.get i = if s ≤ i ∧ i < e then false else b.get i := by
+      intro i
+      rw [← hb', Bitfield.get_setRange]
+      by_cases hin : s ≤ i ∧ i < s + (e - s)
+      · have : s ≤ i ∧ i < e := by omega
+        simp [hin, this]
+      · have : ¬ (s ≤ i ∧ i < e) := by omega
+        simp [hin, this]
+    have hnt : ∀ i, ¬ (s ≤ i ∧ i < e) → ¬ Touches { bitfield := some ⟨true, s, e - s⟩ } i := by
+      rintro i hni ⟨u, hu1, hu2, hu3⟩
+      have : u = ⟨true, s, e - s⟩ := (Option.some.inj hu1).symm
+      subst this
+      simp only at hu2 hu3
+      omega
+    have hc' : (updateContiguous h b' ⟨true, s, e - s⟩).contiguous = if h.contiguous > s then s else h.contiguous := by
+      simp only [updateContiguous, ite_true]
+      split <;> rfl
+    have hcN : (updateContiguous h b' ⟨true, s, e - s⟩).contiguous ≤ N := by
+      rw [hc']; have := hinv.contN; split <;> omega
+    have hcU : U64 (updateContiguous h b' ⟨true, s, e - s⟩).contiguous := by unfold U64; omega
+    refine ⟨updateContiguous h b' ⟨true, s, e - s⟩, t, b', ?_, ?_, ?_, ?_⟩
+    · simp [Core.replayEntry, Tree.addNode, hb']
+    · exact {
+        tree := hinv.tree
+        nodes := hinv.nodes
+        mapwf := hinv.mapwf
+        bitsB := by
+          intro i hu
+          rw [hget]
+          by_cases hin : s ≤ i ∧ i < e
+          · simp [hin]
+          · have := hinv.bitsB i (by
+              intro x hx
+              rcases List.mem_cons.mp hx with rfl | hx
+              · exact hnt i hin
+              · exact hu x hx)
+            simp only [hin, ite_false, this]
+            by_cases h1 : s ≤ i
+            · have : ¬ i < e := by omega
+              simp [h1, this]
+            · simp [h1]
+        heldLt := by
           intro i hi
-          rw [hbits'] at hi
           simp only [Bool.and_eq_true] at hi
-          exact hinv.heldLt i hi.1)
-        have hsz : a.blocks.size < 2 ^ 64 := by have := hsmall.1; rw [habs] at this; exact this
-        unfold U64; omega
-      refine ⟨hinv.tree, hinv.nodes, hinv.mapwf, ?_, ?_, ?_, ?_, ?_, ?_, hinv.forkU, dirty_setRange _ _ _ _ _ hinv.dirty⟩
-      rotate_left 3
-      · rw [updateContiguous_eq]; exact hinv.hdrLen
-      · rw [updateContiguous_eq]; exact hinv.hdrSig
-      · rw [updateContiguous_eq]; exact hdrShape_contig _ hinv.shape _ hcU
-      · intro i
-        rw [Bitfield.get_setRange, hinv.bits]
-        by_cases hin : s ≤ i ∧ i < s + (e - s)
-        · have : s ≤ i ∧ i < e := by omega
-          simp [hin, this.1, this.2]
-        · by_cases h1 : s ≤ i
-          · have : ¬ i < e := by omega
-            simp [hin, h1, this]
-            intro _; omega
-          · simp [hin, h1]
-      · intro i hi
-        simp only [Bool.and_eq_true] at hi
-        exact hinv.heldLt i hi.1
-      · have := updateContiguous_spec h b ⟨true, s, e - s⟩ hinv.contig (by simp; omega)
-        simpa using this
+          exact hinv.heldLt i hi.1
+        contJ := by
+          intro i hi
+          rw [hc'] at hi
+          have hic : i < h.contiguous := by split at hi <;> omega
+          have his : i < s := by split at hi <;> omega
+          rcases hinv.contJ i hic with h1 | ⟨x, hx, hcl⟩
+          · left; rw [hget]
+            have : ¬ (s ≤ i ∧ i < e) := by omega
+            simp only [this, ite_false]; exact h1
+          · rcases List.mem_cons.mp hx with rfl | hx
+            · exfalso; exact hnt i (by omega) hcl.touches
+            · exact Or.inr ⟨x, hx, hcl⟩
+        contK := by
+          rw [hc']
+          split
+          · right; rw [hget]; simp [hse]
+          · rcases hinv.contK with h1 | h1
+            · exact Or.inl h1
+            · right; rw [hget]; split
+              · rfl
+              · exact h1
+        bitsN := by
+          intro i hi
+          rw [hget] at hi
+          split at hi
+          · cases hi
+          · exact hinv.bitsN i hi
+        contN := hcN
+        hdrLen := by rw [updateContiguous_eq]; exact hinv.hdrLen
+        hdrSig := by rw [updateContiguous_eq]; exact hinv.hdrSig
+        shape := by rw [updateContiguous_eq]; exact hdrShape_contig _ hinv.shape _ hcU
+        forkU := hinv.forkU
+        dirty := by rw [← hb']; exact dirty_setRange _ _ _ _ _ hinv.dirty }
     · simp only [updateContiguous]; split <;> (try split) <;> rfl
     · simp only [updateContiguous]; split <;> (try split) <;> rfl
   | append batch nodes sig fk hne hsig sound compl _ =>
@@ -245,9 +308,11 @@ theorem replayEntry_ok (C : Crypto) (hC : HashWF C) (d : Disk) (ol : Oplog.State
     generalize hheld' : (fun i => a.held i || (decide (a.blocks.size ≤ i) && decide (i < a.blocks.size + batch.length))) = held'
     have habs : (a.step (.append batch)).1 = { blocks := a.blocks ++ batch.toArray, held := held' } := by
       simp only [Abs.step, hemp, ← hheld']; rfl
-    rw [habs] at hsmall ⊢
-    generalize hbs' : a.blocks ++ batch.toArray = bs' at hsmall sound compl
+    rw [habs] at hsmall hN ⊢
+    generalize hbs' : a.blocks ++ batch.toArray = bs' at hsmall sound compl hN
     have hsize' : bs'.size = a.blocks.size + batch.length := by rw [← hbs']; simp
+    simp only at hN
+    rw [hsize'] at hN
     -- the tree with the entry's nodes added
     generalize ht1 : nodes.foldl Tree.addNode t = t1
     have ht1' : t1 = { t with unflushed := insertAll t.unflushed nodes } := by rw [← ht1]; exact foldl_addNode nodes t
@@ -279,21 +344,78 @@ theorem replayEntry_ok (C : Crypto) (hC : HashWF C) (d : Disk) (ol : Oplog.State
       omega
     -- the bitfield and the hint
     generalize hb' : b.setRange a.blocks.size batch.length true = b'
-    have hbits' : ∀ i, b'.get i = held' i := by
-      intro i
-      rw [← hb', ← hheld', Bitfield.get_setRange, hinv.bits]
-      by_cases hin : a.blocks.size ≤ i ∧ i < a.blocks.size + batch.length
-      · simp [hin]
-      · by_cases h1 : a.blocks.size ≤ i
-        · have : ¬ i < a.blocks.size + batch.length := by omega
-          simp [hin, h1, this]
-        · simp [hin, h1]
+    have hget : ∀ i, b'.get i = if a.blocks.size ≤ i ∧ i < a.blocks.size + batch.length then true else b.get i := by
+      intro i; rw [← hb', Bitfield.get_setRange]
+    have hnt : ∀ i, ¬ (a.blocks.size ≤ i ∧ i < a.blocks.size + batch.length) →
+        ¬ Touches { treeNodes := nodes, treeUpgrade := some ⟨fk, a.blocks.size, a.blocks.size + batch.length, sig⟩, bitfield := some ⟨false, a.blocks.size, batch.length⟩ } i := by
+      rintro i hni ⟨u, hu1, hu2, hu3⟩
+      have : u = ⟨false, a.blocks.size, batch.length⟩ := (Option.some.inj hu1).symm
+      subst this
+      exact hni ⟨hu2, hu3⟩
+    have hncl : ∀ i, ¬ Clears { treeNodes := nodes, treeUpgrade := some ⟨fk, a.blocks.size, a.blocks.size + batch.length, sig⟩, bitfield := some ⟨false, a.blocks.size, batch.length⟩ } i := by
+      rintro i ⟨u, hu1, hu2, _⟩
+      have : u = ⟨false, a.blocks.size, batch.length⟩ := (Option.some.inj hu1).symm
+      subst this
+      cases hu2
+    have hbitsN' : ∀ i, b'.get i = true → i < N := by
+      intro i hi
+      rw [hget] at hi
+      split at hi
+      · omega
+      · exact hinv.bitsN i hi
     generalize hh1 : updateContiguous h b' ⟨false, a.blocks.size, batch.length⟩ = h1
-    have hcontig1 : FirstMissing b' h1.contiguous := by
-      have := updateContiguous_spec h b ⟨false, a.blocks.size, batch.length⟩ hinv.contig hk
-      simp only [Bool.not_false] at this
-      rw [hb', hh1] at this
-      exact this
+    have hcases : (h1.contiguous = h.contiguous ∧ ¬ (h.contiguous ≤ a.blocks.size + batch.length ∧ h.contiguous ≥ a.blocks.size))
+        ∨ ((h.contiguous ≤ a.blocks.size + batch.length ∧ h.contiguous ≥ a.blocks.size)
+            ∧ (∀ i, a.blocks.size + batch.length ≤ i → i < h1.contiguous → b'.get i = true)
+            ∧ b'.get h1.contiguous = false ∧ a.blocks.size + batch.length ≤ h1.contiguous) := by
+      rw [← hh1]
+      simp only [updateContiguous, Bool.false_eq_true, ite_false]
+      split
+      · rename_i hin
+        exact Or.inr ⟨hin, scan_spec b' _ (a.blocks.size + batch.length) (by omega)⟩
+      · rename_i hout
+        exact Or.inl ⟨rfl, hout⟩
+    have hJ1 : ∀ i, i < h1.contiguous → b'.get i = true ∨ ∃ x ∈ rest, Clears x i := by
+      intro i hi
+      have hold : i < h.contiguous → b'.get i = true ∨ ∃ x ∈ rest, Clears x i := by
+        intro hic
+        rcases hinv.contJ i hic with h1' | ⟨x, hx, hcl⟩
+        · left; rw [hget]; split
+          · rfl
+          · exact h1'
+        · rcases List.mem_cons.mp hx with rfl | hx
+          · exact absurd hcl (hncl i)
+          · exact Or.inr ⟨x, hx, hcl⟩
+      rcases hcases with ⟨e1, _⟩ | ⟨hin, s1, _, _⟩
+      · exact hold (by omega)
+      · by_cases h1' : a.blocks.size + batch.length ≤ i
+        · exact Or.inl (s1 i h1' hi)
+        · by_cases h2 : a.blocks.size ≤ i
+          · left; rw [hget]
+            have : a.blocks.size ≤ i ∧ i < a.blocks.size + batch.length := by omega
+            simp [this]
+          · exact hold (by omega)
+    have hK1 : a.blocks.size + batch.length ≤ h1.contiguous ∨ b'.get h1.contiguous = false := by
+      rcases hcases with ⟨e1, hout⟩ | ⟨_, _, s2, _⟩
+      · rw [e1]
+        by_cases hgt : a.blocks.size + batch.length ≤ h.contiguous
+        · exact Or.inl hgt
+        · right
+          have hlt : h.contiguous < a.blocks.size := by omega
+          rcases hinv.contK with h2 | h2
+          · omega
+          · rw [hget]
+            have : ¬ (a.blocks.size ≤ h.contiguous ∧ h.contiguous < a.blocks.size + batch.length) := by omega
+            simp only [this, ite_false]; exact h2
+      · exact Or.inr s2
+    have hN1c : h1.contiguous ≤ N := by
+      rcases hcases with ⟨e1, _⟩ | ⟨_, s1, _, s3⟩
+      · rw [e1]; exact hinv.contN
+      · by_cases hle : h1.contiguous ≤ N
+        · exact hle
+        · exfalso
+          have := hbitsN' N (s1 N (by omega) (by omega))
+          omega
     have hh1s : h1.secret = h.secret ∧ h1.publicKey = h.publicKey := by
       rw [← hh1]; simp only [updateContiguous]; split <;> (try split) <;> exact ⟨rfl, rfl⟩
     -- the commit
@@ -340,45 +462,65 @@ theorem replayEntry_ok (C : Crypto) (hC : HashWF C) (d : Disk) (ol : Oplog.State
       have hcs2hash : (cs2.hash.getD []).length ≤ 32 := by
         rw [← hcs2]; simp only [Option.getD_some, Tree.rootsHash]; rw [hTw]
       have hh1eq : h1 = { h with contiguous := h1.contiguous } := by rw [← hh1]; exact updateContiguous_eq _ _ _
-      have hc1U : U64 h1.contiguous := by
-        have := contig_le_of b' h1.contiguous bs'.size hcontig1 (by intro i hi; rw [hbits'] at hi; exact hheldLt' i hi)
-        have hsz : bs'.size < 2 ^ 64 := hsmall.1
-        unfold U64; omega
+      have hc1U : U64 h1.contiguous := by unfold U64; omega
       have hshape1 : HdrShape h1 := by rw [hh1eq]; exact hdrShape_contig _ hinv.shape _ hc1U
-      refine ⟨⟨t2a.2.1, ?_, t2a.2.2.1⟩, ?_, ?_, hbits', hheldLt', ?_, ?_, ?_, ?_, ?_, ?_⟩
-      · simp [Tree.changeset, t2a.1, refRoots, List.map_reverse]
-      · intro dd o hb
-        rw [← hN1 dd o hb]
-        exact node?_congr t1 t2 d.tree _ (by rw [t2a.2.2.2])
-      · rw [t2a.2.2.2]; exact hwf1
-      · rw [hh2.1]; exact hcontig1
-      · rw [hh2tree]; exact hcs2len
-      · rw [hh2tree]; exact Or.inr (by rw [hcs2sig]; exact hsig)
-      · rw [hh2rest, hh2tree]
-        have := hdrShape_set h1 hshape1 (cs2.hash.getD []) (cs2.signature.getD []) cs2.length h1.contiguous hcs2hash
-          (by rw [hcs2sig, hsig]) (by rw [hcs2len]; have hsz : bs'.size < 2 ^ 64 := hsmall.1; unfold U64; omega) hc1U
-        simpa using this
-      · rw [← ht2]; exact hfkU
-      · rw [← hb']; exact dirty_setRange _ _ _ _ _ hinv.dirty
+      exact {
+        tree := ⟨t2a.2.1, by simp [Tree.changeset, t2a.1, refRoots, List.map_reverse], t2a.2.2.1⟩
+        nodes := by
+          intro dd o hb
+          rw [← hN1 dd o hb]
+          exact node?_congr t1 t2 d.tree _ (by rw [t2a.2.2.2])
+        mapwf := by rw [t2a.2.2.2]; exact hwf1
+        bitsB := by
+          intro i hu
+          rw [hget, ← hheld']
+          by_cases hin : a.blocks.size ≤ i ∧ i < a.blocks.size + batch.length
+          · simp [hin]
+          · have := hinv.bitsB i (by
+              intro x hx
+              rcases List.mem_cons.mp hx with rfl | hx
+              · exact hnt i hin
+              · exact hu x hx)
+            simp only [hin, ite_false, this]
+            by_cases h1' : a.blocks.size ≤ i
+            · have : ¬ i < a.blocks.size + batch.length := by omega
+              simp [h1', this]
+            · simp [h1']
+        heldLt := hheldLt'
+        contJ := by rw [hh2.1]; exact hJ1
+        contK := by rw [hh2.1, hsize']; exact hK1
+        bitsN := hbitsN'
+        contN := by rw [hh2.1]; exact hN1c
+        hdrLen := by rw [hh2tree]; exact hcs2len
+        hdrSig := by rw [hh2tree]; exact Or.inr (by rw [hcs2sig]; exact hsig)
+        shape := by
+          rw [hh2rest, hh2tree]
+          have := hdrShape_set h1 hshape1 (cs2.hash.getD []) (cs2.signature.getD []) cs2.length h1.contiguous hcs2hash
+            (by rw [hcs2sig, hsig]) (by rw [hcs2len]; have hsz : bs'.size < 2 ^ 64 := hsmall.1; unfold U64; omega) hc1U
+          simpa using this
+        forkU := by rw [← ht2]; exact hfkU
+        dirty := by rw [← hb']; exact dirty_setRange _ _ _ _ _ hinv.dirty }
 
 /-! ### replaying the whole log -/
 
-theorem replay_ok (C : Crypto) (hC : HashWF C) (hTw : TreeWF C) (d : Disk) (ol : Oplog.State) (es : List Entry) :
-    ∀ (h : Header) (t : Tree) (b : Bitfield) (a a' : Abs), RInv C t b h d.tree d.bitfield a → Trace C a es a' →
-      (∀ e ∈ es, EntryOK e) →
-      ∃ h' t' b', Core.openCore.replay C d es (ol, h, t, b) = .ok (ol, h', t', b') ∧ RInv C t' b' h' d.tree d.bitfield a'
+theorem replay_ok (C : Crypto) (hC : HashWF C) (hTw : TreeWF C) (d : Disk) (ol : Oplog.State) (N : Nat) (hN64 : N < 2 ^ 64)
+    (es : List Entry) :
+    ∀ (h : Header) (t : Tree) (b : Bitfield) (a a' : Abs), RInv C t b h d.tree d.bitfield a es N → Trace C a es a' →
+      (∀ e ∈ es, EntryOK e) → a'.blocks.size ≤ N →
+      ∃ h' t' b', Core.openCore.replay C d es (ol, h, t, b) = .ok (ol, h', t', b') ∧ RInv C t' b' h' d.tree d.bitfield a' [] N
         ∧ h'.secret = h.secret ∧ h'.publicKey = h.publicKey := by
   induction es with
   | nil =>
-    intro h t b a a' hinv htr _
+    intro h t b a a' hinv htr _ _
     cases htr
     exact ⟨h, t, b, rfl, hinv, rfl, rfl⟩
   | cons e es ih =>
-    intro h t b a a' hinv htr hoks
+    intro h t b a a' hinv htr hoks hN
     cases htr with
     | cons _ a1 _ _ _ hstep hsm hrest =>
-      obtain ⟨h1, t1, b1, r1, r2, r3, r4⟩ := replayEntry_ok C hC d ol h t b a a1 e hTw hinv hstep hsm (hoks e (by simp))
-      obtain ⟨h2, t2, b2, s1, s2, s3, s4⟩ := ih h1 t1 b1 a1 a' r2 hrest (fun x hx => hoks x (by simp [hx]))
+      have hN1 : a1.blocks.size ≤ N := Nat.le_trans (trace_size_le C a1 a' es hrest) hN
+      obtain ⟨h1, t1, b1, r1, r2, r3, r4⟩ := replayEntry_ok C hC d ol h t b a a1 e es N hTw hinv hstep hsm (hoks e (by simp)) hN1 hN64
+      obtain ⟨h2, t2, b2, s1, s2, s3, s4⟩ := ih h1 t1 b1 a1 a' r2 hrest (fun x hx => hoks x (by simp [hx])) hN
       refine ⟨h2, t2, b2, ?_, s2, by rw [s3, r3], by rw [s4, r4]⟩
       simp only [Core.openCore.replay, r1, s1]
 
@@ -443,29 +585,60 @@ theorem openTree_ok (C : Crypto) (bs : Array Bytes) (ht : HeaderTree) (f : File)
 
 /-! ### `Hypercore::new` on existing storage -/
 
-/-- If the oplog opens to the header of the last flush and the entries logged since, the tree and
-    bitfield stores hold the state of that flush, and the entries lead from that state to the log `a`,
-    then opening succeeds and the opened state satisfies the replay invariant for `a`. -/
+/-- If the oplog opens to the header of the last flush and the entries logged since, the tree store holds
+    the nodes of that flush, the entries lead from that state to the log `a`, and the bitfield store holds
+    the state of that flush **or anything a partial flush of a later state may have left** (a bit no
+    entry touches is as at the flush; a bit held at the flush is still set unless an entry drops it; a bit
+    missing below the flushed length is clear; no bit at or beyond the final length is set), then opening
+    succeeds and the opened state satisfies the replay invariant for `a` — bitfield exact, hint exact. -/
 theorem reopen_full (C : Crypto) (hC : HashWF C) (hTw : TreeWF C) (d : Disk) (ost : Oplog.State) (hf : Header) (es : List Entry)
     (a0 a : Abs)
     (hlog : Oplog.openLog none d.oplog.toList = .ok ⟨ost, hf, [], es⟩)
     (hlen : hf.tree.length = a0.blocks.size) (hsig : hf.tree.signature = [] ∨ hf.tree.signature.length = 64)
     (hshape : HdrShape hf) (hoks : ∀ e ∈ es, EntryOK e)
     (hN : NodesOK C a0.blocks {} d.tree)
-    (hbits : ∀ i, (Bitfield.ofFile d.bitfield).get i = a0.held i) (hlt : ∀ i, a0.held i = true → i < a0.blocks.size)
-    (hcontig : FirstMissing (Bitfield.ofFile d.bitfield) hf.contiguous)
+    (hstable : ∀ i, (∀ e ∈ es, ¬ Touches e i) → (Bitfield.ofFile d.bitfield).get i = a0.held i)
+    (hkept : ∀ i, a0.held i = true → (Bitfield.ofFile d.bitfield).get i = true ∨ ∃ e ∈ es, Clears e i)
+    (hlow : ∀ i, i < a0.blocks.size → a0.held i = false → (Bitfield.ofFile d.bitfield).get i = false)
+    (hbN : ∀ i, (Bitfield.ofFile d.bitfield).get i = true → i < a.blocks.size)
+    (hlt : ∀ i, a0.held i = true → i < a0.blocks.size)
+    (hcontig : (∀ i, i < hf.contiguous → a0.held i = true) ∧ a0.held hf.contiguous = false)
     (hsmall0 : Small a0) (htrace : Trace C a0 es a) :
     ∃ h' t' b', Core.openCore C none d = .ok ({ publicKey := h'.publicKey, secret := h'.secret, oplog := ost, header := h', tree := t', bitfield := b', skipFlush := 0 }, [])
-      ∧ RInv C t' b' h' d.tree d.bitfield a ∧ h'.secret = hf.secret := by
+      ∧ RInv C t' b' h' d.tree d.bitfield a [] a.blocks.size ∧ h'.secret = hf.secret := by
   obtain ⟨t0, ht0, hroots0, hunf0, hfork0⟩ := openTree_ok C a0.blocks hf.tree d.tree hN hlen hsmall0.1 hsig
   have hN0 : NodesOK C a0.blocks t0 d.tree := by
     intro dd o hb
     rw [← hN dd o hb]
     exact node?_congr {} t0 d.tree _ (by rw [hunf0])
-  have hinv0 : RInv C t0 (Bitfield.ofFile d.bitfield) hf d.tree d.bitfield a0 :=
-    ⟨hroots0, hN0, by rw [hunf0]; intro k n hk; simp at hk, hbits, hlt, hcontig, hlen, hsig, hshape,
-      by rw [hfork0]; exact hshape.fork, fun i hne => absurd rfl hne⟩
-  obtain ⟨h', t', b', hrep, hinv', hs', _⟩ := replay_ok C hC hTw d ost es hf t0 (Bitfield.ofFile d.bitfield) a0 a hinv0 htrace hoks
+  have hsz := trace_size_le C a0 a es htrace
+  have hsmall := trace_small C a0 a es htrace hsmall0
+  have hc0 : hf.contiguous ≤ a0.blocks.size := by
+    by_cases hle : hf.contiguous ≤ a0.blocks.size
+    · exact hle
+    · exfalso
+      have := hlt _ (hcontig.1 a0.blocks.size (by omega))
+      omega
+  have hinv0 : RInv C t0 (Bitfield.ofFile d.bitfield) hf d.tree d.bitfield a0 es a.blocks.size := {
+    tree := hroots0
+    nodes := hN0
+    mapwf := by rw [hunf0]; intro k n hk; simp at hk
+    bitsB := hstable
+    heldLt := hlt
+    contJ := fun i hi => hkept i (hcontig.1 i hi)
+    contK := by
+      by_cases hlt' : hf.contiguous < a0.blocks.size
+      · exact Or.inr (hlow _ hlt' hcontig.2)
+      · exact Or.inl (by omega)
+    bitsN := hbN
+    contN := by omega
+    hdrLen := hlen
+    hdrSig := hsig
+    shape := hshape
+    forkU := by rw [hfork0]; exact hshape.fork
+    dirty := fun i hne => absurd rfl hne }
+  obtain ⟨h', t', b', hrep, hinv', hs', _⟩ := replay_ok C hC hTw d ost a.blocks.size hsmall.1 es hf t0 (Bitfield.ofFile d.bitfield)
+    a0 a hinv0 htrace hoks (Nat.le_refl _)
   refine ⟨h', t', b', ?_, hinv', hs'⟩
   simp only [Core.openCore, hlog, applyAll_nil, ht0, hrep]
 
@@ -476,25 +649,29 @@ theorem reopen_refines (C : Crypto) (hC : HashWF C) (hTw : TreeWF C) (d : Disk) 
     (hlen : hf.tree.length = a0.blocks.size) (hsig : hf.tree.signature = [] ∨ hf.tree.signature.length = 64)
     (hsec : hf.secret = some sk) (hshape : HdrShape hf) (hoks : ∀ e ∈ es, EntryOK e)
     (hN : NodesOK C a0.blocks {} d.tree)
-    (hbits : ∀ i, (Bitfield.ofFile d.bitfield).get i = a0.held i) (hlt : ∀ i, a0.held i = true → i < a0.blocks.size)
-    (hcontig : FirstMissing (Bitfield.ofFile d.bitfield) hf.contiguous)
+    (hstable : ∀ i, (∀ e ∈ es, ¬ Touches e i) → (Bitfield.ofFile d.bitfield).get i = a0.held i)
+    (hkept : ∀ i, a0.held i = true → (Bitfield.ofFile d.bitfield).get i = true ∨ ∃ e ∈ es, Clears e i)
+    (hlow : ∀ i, i < a0.blocks.size → a0.held i = false → (Bitfield.ofFile d.bitfield).get i = false)
+    (hbN : ∀ i, (Bitfield.ofFile d.bitfield).get i = true → i < a.blocks.size)
+    (hlt : ∀ i, a0.held i = true → i < a0.blocks.size)
+    (hcontig : (∀ i, i < hf.contiguous → a0.held i = true) ∧ a0.held hf.contiguous = false)
     (hsmall0 : Small a0) (htrace : Trace C a0 es a)
     (hdata : ∀ i, a.held i = true → ∀ k, k < sz a.blocks i →
-      psum a.blocks i + k < d.data.size ∧ d.data.byte (psum a.blocks i + k) = (a.blocks.getD i []).getD k 0)
-    (hsmall : Small a) :
+      psum a.blocks i + k < d.data.size ∧ d.data.byte (psum a.blocks i + k) = (a.blocks.getD i []).getD k 0) :
     ∃ c', Core.openCore C none d = .ok (c', []) ∧ Rep C c' d a := by
-  obtain ⟨h', t', b', hopen, hinv', hs'⟩ := reopen_full C hC hTw d ost hf es a0 a hlog hlen hsig hshape hoks hN hbits hlt hcontig
-    hsmall0 htrace
+  obtain ⟨h', t', b', hopen, hinv', hs'⟩ := reopen_full C hC hTw d ost hf es a0 a hlog hlen hsig hshape hoks hN hstable hkept hlow
+    hbN hlt hcontig hsmall0 htrace
+  obtain ⟨hbits, hfm⟩ := rinv_final C t' b' h' d.tree d.bitfield a _ hinv'
   refine ⟨_, hopen, ?_⟩
   exact {
     writer := by simp [hs', hsec]
     tree := hinv'.tree
     nodes := hinv'.nodes
     mapwf := hinv'.mapwf
-    bits := hinv'.bits
+    bits := hbits
     heldLt := hinv'.heldLt
-    contig := hinv'.contig
+    contig := hfm
     data := hdata
-    small := hsmall }
+    small := trace_small C a0 a es htrace hsmall0 }
 
 end HC.Reopen
